@@ -330,3 +330,31 @@ Check as_path_count_spec :
   forall asn p, wf_path p ->
     exists n, path_count_b asn (encode_path p) = Some n /\ (0 < n <-> In asn (flat p)).
 Print Assumptions as_path_count_spec.
+
+(* Export-policy MED action: towards an eBGP peer the MED that is sent is the one a
+   real one-statement policy (table/src/policy.rs med action, model stmt_policy)
+   computes starting from a cleared MED: the received MED was removed first, and
+   the set-med action is not clobbered afterwards. *)
+Theorem ebgp_policy_med :
+  forall x st default emax raddr cid c e d pid nh out s act,
+    x_role x = Ebgp -> st_med st = Some act ->
+    advertised x (stmt_policy x raddr st default) emax raddr cid c e d pid nh out s ->
+    exists m, find_code MED out = Some m
+      /\ a_data m = DVal (match act with MedMod dl => clamp_u32 dl | MedReplace v => clamp_u32 v end).
+Proof. exact C09_ebgp_policy_med. Qed.
+Check ebgp_policy_med :
+  forall x st default emax raddr cid c e d pid nh out s act,
+    x_role x = Ebgp -> st_med st = Some act ->
+    advertised x (stmt_policy x raddr st default) emax raddr cid c e d pid nh out s ->
+    exists m, find_code MED out = Some m
+      /\ a_data m = DVal (match act with MedMod dl => clamp_u32 dl | MedReplace v => clamp_u32 v end).
+Print Assumptions ebgp_policy_med.
+
+(* The policies with next-hop / MED set-actions satisfy the hypothesis
+   [policy_keeps_decodable] of the any-policy theorems above. *)
+Theorem policy_actions_keep_decodable :
+  forall x raddr st default, policy_keeps_decodable (stmt_policy x raddr st default).
+Proof. exact stmt_policy_keeps_decodable. Qed.
+Check policy_actions_keep_decodable :
+  forall x raddr st default, policy_keeps_decodable (stmt_policy x raddr st default).
+Print Assumptions policy_actions_keep_decodable.
